@@ -562,6 +562,14 @@ type MemberCallCase struct {
 	Want string `json:"want"` // rendered expected value, or "error"
 }
 
+// field names whose first letter is upper case without being A-Z (exported all the same)
+type uniRow struct {
+	Élan  int
+	Ärger string
+	Ωmega float64
+	Plain int
+}
+
 type taggedRow struct {
 	Code  string `json:"ID"`
 	ID    int
@@ -576,6 +584,8 @@ var memberCallCases = []MemberCallCase{
 	{"len('abc')", "3"}, {"rules.len('abc') + len('abc')", "1006"}, {"[rules.now(), rules.toDay()]", "[\"n\", \"t\"]"},
 	{"item.ID", "7"}, {"item.Code", "\"SKU-9\""}, {"item.Name", "\"n\""}, {"item.Label", "\"l\""}, {"item.Len", "4"}, {"item!.ID + 1", "8"}, {"typeof item.ID", "\"number\""}, {"this.item.ID", "7"}, {"wrap.item.ID", "7"},
 	{"[item.ID, item.Code]", "[7, \"SKU-9\"]"},
+	{"u.Élan", "5"}, {"u.Ärger", "\"grr\""}, {"u.Ωmega", "2.5"}, {"u.Plain", "1"}, {"u!.Élan + u.Plain", "6"}, {"this.u.Ωmega", "2.5"}, {"wrap.u.Ärger", "\"grr\""},
+	{"f32w", "0.10000000149011612"}, {"wrap.f32w == f32w", "true"}, {"f32w == 0.1", "false"}, {"f32w > 0.1", "true"},
 }
 
 var c16MemberCall = core.Mon(c16, "member-calls-and-tagged-fields", func(w *core.W, c *MemberCallCase) {
@@ -588,7 +598,10 @@ var c16MemberCall = core.Mon(c16, "member-calls-and-tagged-fields", func(w *core
 		"toDay": func() (string, error) { return "t", nil },
 	}
 	item := taggedRow{Code: "SKU-9", ID: 7, Name: "n", Label: "l", Len: 4}
-	data := map[string]interface{}{"rules": rules, "empty": map[string]interface{}{}, "none": nil, "item": item, "wrap": map[string]interface{}{"rules": rules, "item": item}}
+	uni := uniRow{5, "grr", 2.5, 1}
+	f32w := float64(float32(0.1)) // exactly float32-representable; as a float64 it prints as 0.10000000149011612
+	data := map[string]interface{}{"rules": rules, "empty": map[string]interface{}{}, "none": nil, "item": item, "u": uni, "f32w": f32w,
+		"wrap": map[string]interface{}{"rules": rules, "item": item, "u": uni, "f32w": f32w}}
 	v, err, panicked, pv := resolveIn(data, c.Src)
 	w.Eval(1)
 	w.Count("member_call_cases")
